@@ -27,7 +27,7 @@ LEVEL = META['level']
 RULE = ('a case = one (operation list, setting) execution compared with the reference execution and the model, or one operation string parsed; distinct by (list, setting) / string; '
         'non-trivial = the list has >= 2 operations and the setting pipelines or bundles')
 ASSUMPTIONS = ['tag state is reset in-process between settings (the simulator runs in a thread of the checking process)']
-REQUIRED = ['proxy:same-attribute-declared-as-different-types', 'lists', 'settings', 'setting:synchronous', 'setting:pipelined', 'setting:bundled', 'setting:fragment', 'ops:read', 'ops:write', 'ops:failing', 'ops:attribute', 'ops:attribute-refused-bare-status', 'ops:no-route-path-next-to-default',
+REQUIRED = ['strings:composed-of-syntax-characters', 'proxy:same-attribute-declared-as-different-types', 'lists', 'settings', 'setting:synchronous', 'setting:pipelined', 'setting:bundled', 'setting:fragment', 'ops:read', 'ops:write', 'ops:failing', 'ops:attribute', 'ops:attribute-refused-bare-status', 'ops:no-route-path-next-to-default',
             'bundles:seen', 'bundles:multi-member', 'monitor:paths-in-bundle', 'ops:differing-route-paths', 'strings:parsed', 'strings:write-cast', 'strings:range', 'strings:offset',
             'strings:numeric-path', 'strings:text-values', 'strings:four-term-numeric-path', 'paths:format-parse', 'monitor:model-compare', 'proxy:lists']
 TIMEOUT = {'quick': 300, 'thorough': 2400}
@@ -133,7 +133,7 @@ def gen_spec(rng, failing_ok=True):
 
 
 # ---------------------------------------------------------------- (c) strings
-STRING_VALUES = ['abc', 'a,b', 'C:\\plc\\new', '\\\\srv\\share', 'a\\tb', 'say "hi"', ' lead', 'x=1', 'a+b', '(INT)5', '1.5', 'tail\\', "it's", 'a[0-3]*2', 'é', '']
+STRING_VALUES = ['abc', 'a,b', 'C:\\plc\\new', '\\\\srv\\share', 'a\\tb', 'say "hi"', ' lead', 'x=1', 'a+b', '(INT)5', '1.5', 'tail\\', "it's", 'a[0-3]*2', 'é', '', 'say "hi" , then go', 'x" ,y', 'q"\t,', '" ', ' "', '",', ', ']
 
 
 def four_term_paths(ctx, rng):
@@ -174,6 +174,11 @@ def strings_part(ctx, rng, n):
             # text values: everything between the quotes is the value, character for character
             cnt = rng.choice([1, 1, 2, 3])
             vals = [rng.choice(STRING_VALUES) for _ in range(cnt)]
+            for j in range(cnt):
+                if rng.random() < 0.3:
+                    # composed of the characters the value syntax itself uses (quote, comma, blank, tab, backslash), in any order
+                    vals[j] = ''.join(rng.choice(['"', '"', ',', ' ', ' ', '\t', 'a', 'b', '\\', "'", '=']) for _ in range(rng.randrange(1, 8)))
+                    ctx.count('strings:composed-of-syntax-characters')
             if all(v == '' for v in vals):
                 vals[0] = 'abc'
             spec = {'tag': 'Txt', 'index': rng.randrange(4), 'spaces': rng.random() < 0.3, 'write': (rng.choice(['SSTRING', 'STRING']), vals)}
